@@ -35,11 +35,12 @@ def rule_gates(ctx):
     ]
     for inst in insts:
         b = ctx.body(inst['body'])
-        fpass, fother, fsw = field_edges(b, 'filter_dubious', {'false'})
-        # filter_dubious may be read through an accessor (config().filter_dubious)
-        dpass, dother, dsw = edges_from_call(b, 'UriExt::has_dubious_authority', {'false'})
-        ctx.floor('K1', 'filter_dubious switch in ' + b.nid, len(fsw), 1)
-        ctx.floor('K1', 'has_dubious_authority switch in ' + b.nid, len(dsw), 1)
+        from lib.rules import AnyG, G
+        gate = AnyG('!(filter_dubious && dubious)', [G('filter off', field='filter_dubious', labels={'false'}),
+                                                     G('not dubious', call='UriExt::has_dubious_authority', labels={'false'})])
+        gpass, gsw = gate.edges(b)          # direct switches, or a bool helper that stands for the conjunction
+        fpass, dpass = gpass, []
+        ctx.floor('K1', 'switches deciding on filter_dubious / has_dubious_authority in ' + b.nid, len(gsw), 1)
         # the classification is applied to the URI being fetched
         for s in b.calls('UriExt::has_dubious_authority'):
             p = arg_path(s, 0)
